@@ -3,11 +3,11 @@
 usage: seedfile.py ID PROPERTY DEMO_DEST NEEDS CONFIRMED DETECTED_BY"""
 import json, os, shutil, sys
 sid, prop, dest, needs, confirmed, detected = sys.argv[1:7]
-d = "/verif/seeded/" + sid
+d = "/verif/seeded/" + os.environ.get("SEEDNAME", sid)
 os.makedirs(d, exist_ok=True)
-shutil.copy("/tmp/seed/%s.patch" % sid, d + "/patch.diff")
-shutil.copy("/tmp/seed/%s_demo_test.go" % sid, d + "/demo_test.go.txt")
-json.dump({"id": sid, "property": prop,
+shutil.copy(os.environ.get("SEEDDIR","/tmp/seed")+"/%s.patch" % sid, d + "/patch.diff")
+shutil.copy(os.environ.get("SEEDDIR","/tmp/seed")+"/%s_demo_test.go" % sid, d + "/demo_test.go.txt")
+json.dump({"id": os.environ.get("SEEDNAME", sid), "property": prop,
            "patch": "patch.diff (git -C /repo apply)",
            "demonstration": "demo_test.go.txt: copy to %s and run the go test command in its header; fails with the change, passes without" % dest,
            "needs_to_manifest": needs,
